@@ -1,14 +1,14 @@
 import AlphaG.Lemmas.CrcOrbitDef
 /-
-Segments 8..11 of the orbit of POLY under the zero-input map: each is one kernel
-evaluation of 32800 register steps (`decide +kernel`; no `native_decide`). The junction states
+Segments 8..11 of the orbit of 1 under the zero-input map: each is one kernel
+evaluation of 32800 register steps (`decide +kernel`). The junction states
 are literals checked by the kernel (generated once with a script; a wrong literal fails).
 -/
 namespace AlphaG.Crc
 
-theorem orbit_seg8 : walk 1356097871 32800 = some 3903790831 := by decide +kernel
-theorem orbit_seg9 : walk 3903790831 32800 = some 3192863771 := by decide +kernel
-theorem orbit_seg10 : walk 3192863771 32800 = some 3299059080 := by decide +kernel
-theorem orbit_seg11 : walk 3299059080 32800 = some 3143184419 := by decide +kernel
+theorem orbit_seg8 : walk 2712195742 32800 = some 3568454447 := by decide +kernel
+theorem orbit_seg9 : walk 3568454447 32800 = some 2037518023 := by decide +kernel
+theorem orbit_seg10 : walk 2037518023 32800 = some 2360032737 := by decide +kernel
+theorem orbit_seg11 : walk 2360032737 32800 = some 1935546039 := by decide +kernel
 
 end AlphaG.Crc
